@@ -25,7 +25,14 @@ func main() {
 	out := flag.String("out", "", "output directory")
 	only := flag.Int("only", -1, "run only this case index")
 	verbose := flag.Bool("v", false, "verbose")
+	c19child := flag.String("c19child", "", "internal: kind:file - read a file (run under strace fault injection)")
 	flag.Parse()
+
+	if *c19child != "" {
+		i := strings.Index(*c19child, ":")
+		mon.C19Child((*c19child)[:i], (*c19child)[i+1:])
+		return
+	}
 
 	if *meta != "" {
 		var ms []core.Meta
